@@ -67,7 +67,11 @@ class C09(Prop):
                 continue
             out.append({"sheets": sheets, "styles": rng.choice(["none", "none", "default", "custom"]),
                         "sep_lines": rng.choice([1, 1, 2, 3]), "path": rng.random() < 0.3,
-                        "pattern": rng.choice([None, None, "^S", "^(data|second)$", "nomatch"]),
+                        # [text, flags]: a compiled pattern keeps its flags ("^s" with IGNORECASE selects Sheet1, second, Sheet)
+                        "pattern": rng.choice([None, None, ["^S", 0], ["^(data|second)$", 0], ["nomatch", 0], ["^s", re.IGNORECASE],
+                                               ["^ s [a-z]+ $", re.IGNORECASE | re.VERBOSE]]),
+                        # hand read_excel the very stream the workbook was written to, wherever its position is
+                        "reuse_stream": rng.random() < 0.3,
                         "single": nsheets == 1 and rng.random() < 0.3})
         return out
 
@@ -104,8 +108,8 @@ class C09(Prop):
                     grids[ws.title] = [[C.from_py(v) for v in row] for row in ws.iter_rows(values_only=True)]
                 wb.close()
                 obs["grids"] = grids
-                pat = re.compile(case["pattern"]) if case["pattern"] else None
-                blocks = list(read_excel(src(), sheet_name_pattern=pat))
+                pat = re.compile(*case["pattern"]) if case["pattern"] else None
+                blocks = list(read_excel(buf if (case.get("reuse_stream") and not case["path"]) else src(), sheet_name_pattern=pat))
             evs = []
             for bt, b in blocks:
                 o = R.observe_block(bt, b, {}, None)
@@ -128,7 +132,7 @@ class C09(Prop):
         sheets = case["sheets"]
         names = [s for s, _ in sheets] if not case["single"] else ["Sheet1"]
         tabs = [t for _, t in sheets] if not case["single"] else [sheets[0][1]]
-        pat = re.compile(case["pattern"]) if case["pattern"] else None
+        pat = re.compile(*case["pattern"]) if case["pattern"] else None
         out = []
         for s, ts in zip(names, tabs):
             if pat is not None and pat.match(s) is None:
@@ -164,7 +168,7 @@ class C09(Prop):
         sheets = case["sheets"]
         names = [s for s, _ in sheets] if not case["single"] else ["Sheet1"]
         tabs = [t for _, t in sheets] if not case["single"] else [sheets[0][1]]
-        pat = re.compile(case["pattern"]) if case["pattern"] else None
+        pat = re.compile(*case["pattern"]) if case["pattern"] else None
         out = []
         for (s0, _), s, ts in zip(sheets, names, tabs):
             if pat is not None and pat.match(s) is None:
